@@ -503,6 +503,15 @@ int main(int argc, char ** argv)
               ls >> s;
               src.tplan.push_back(parse_plan_val(s));
             }
+          } else if (tag == "E") {
+            // deviates of the rejection trials of the beta-spectrum primitives, in order (E-deviate, f-deviate, ...)
+            size_t k;
+            ls >> k;
+            for (size_t i = 0; i < k; i++) {
+              std::string s;
+              ls >> s;
+              src.betaplan.push_back(parse_plan_val(s));
+            }
           } else if (tag == "R") {
             reserve_event = true;
           }
